@@ -46,17 +46,31 @@ ENGINE_TB = TB_COMMON + [
 
 ENGINE_STREAMS = {
     # property: list of (profile, histories quick, histories thorough, ops)
-    "C01": [("C01", 60, 1500, 40), ("static", 40, 1000, 40)],
+    "C01": [("C01", 50, 1500, 40), ("static", 30, 1000, 40), ("wide", 30, 600, 30), ("widekids", 30, 600, 90)],
     "C02": [("C01", 60, 1500, 40), ("midset", 40, 1000, 40)],
-    "C03": [("C01", 60, 1500, 40), ("faults", 40, 1000, 40)],
-    "C05": [("C01", 30, 1500, 40), ("faults", 30, 1500, 40), ("reject", 30, 1000, 40), ("wide", 20, 400, 30)],
-    "C06": [("C01", 40, 1500, 40), ("churn", 40, 1000, 60), ("wide", 20, 400, 30)],
-    "C07": [("faults", 60, 2000, 40), ("binds", 30, 1000, 40), ("reject", 30, 1000, 40)],
+    "C03": [("C01", 40, 1500, 40), ("faults", 30, 1000, 40), ("alwaysfaults", 40, 1000, 40), ("sentinel", 80, 2000, 40)],
+    "C05": [("C01", 30, 1500, 40), ("faults", 30, 1500, 40), ("reject", 30, 1000, 40), ("wide", 20, 400, 30), ("sentinel", 60, 1500, 40)],
+    "C06": [("C01", 40, 1500, 40), ("churn", 40, 1000, 60), ("wide", 20, 400, 30), ("sentinel", 60, 1500, 40)],
+    "C07": [("faults", 50, 2000, 40), ("alwaysfaults", 50, 2000, 40), ("binds", 20, 1000, 40), ("reject", 30, 1000, 40)],
     "C08": [("binds", 60, 3000, 40), ("inner", 30, 1000, 40), ("bind2", 60, 2000, 40)],
     "C10": [("C01", 30, 1500, 40), ("faults", 30, 1500, 40), ("inner", 40, 1500, 40)],
-    "C11": [("cutoffs", 100, 3000, 40)],
+    "C11": [("cutoffs", 60, 3000, 40), ("midset", 50, 1500, 40)],
     "C12": [("midset", 60, 1500, 40), ("unobs", 40, 1500, 40)],
     "C13": [("C01", 40, 1500, 40), ("midset", 30, 1500, 40), ("inner", 30, 1500, 40)],
+}
+
+
+# oracle families that are part of a property's own statement although another property's oracle
+# implements them (e.g. C07 demands a consistent graph = C05's oracle, converging values = C01's,
+# nothing lost = C03's; C03's "only necessary nodes run" is the lifecycle oracle of C10)
+ENGINE_INCLUDES = {
+    "C03": "C10",
+    "C06": "C05",
+    "C07": "C01,C03,C05",
+    "C08": "C10",
+    "C10": "C05",
+    "C11": "C01,C12",
+    "C12": "C01",
 }
 
 
@@ -69,11 +83,15 @@ def run_engine(ctx, K):
     for (profile, nq, nt, ops) in ENGINE_STREAMS[ctx.pid]:
         n = tier_n(ctx, nq, nt)
         cases = os.path.join(ctx.rundir, "cases_%s_%s.v" % (ctx.pid, profile))
-        extra = ["-include", "C05"] if (ctx.pid == "C07" and profile == "reject") else []
+        extra = ["-include", ENGINE_INCLUDES[ctx.pid]] if ctx.pid in ENGINE_INCLUDES else []
+        if ctx.pid == "C01" and profile in ("wide", "widekids"):
+            # a corrupted edge list of a wide node (lost dependent edge) is what makes values stale there
+            extra = ["-include", "C05"]
         rep = K.run_tool(ctx, b, ["-prop", profile, "-claim", ctx.pid] + extra + ["-n", str(n), "-ops", str(ops), "-coq", cases,
-                                  "-coqmax", str(tier_n(ctx, nq, 400)), "-seed", str(ctx.seed)], "engine-" + profile)
-        if profile == "bind2":
-            continue  # Bind2/3/4 are library sugar over Map2 + Bind: exercised on the implementation only, not in the Coq model
+                                  "-coqmax", str(tier_n(ctx, 1, 5) if profile == "widekids" else tier_n(ctx, nq, 400)),
+                                  "-seed", str(ctx.seed)], "engine-" + profile)
+        if profile in ("bind2", "sentinel"):
+            continue  # Bind2/3/4 (sugar over Map2 + Bind) and Sentinel are exercised on the implementation only, not in the Coq model
         if rep:
             ctx.coq_cases += rep.get("coq_cases", 0)
             K.run_cases(ctx, cases, "Engine.v~go-incr engine (%s stream)" % profile)
